@@ -19,7 +19,7 @@ func init() {
 		Text: "By constant evaluation of the initialisers: the unescaped-byte sets of the path and query escapers contain none of ( ) , : ' % nor any byte < 0x21 or >= 0x80; the query set also excludes + & = # " +
 			"(the query reader decodes with url.QueryUnescape and splits on & and =); the path set excludes / ? #; the header replacer's old strings include % , ( ) ' : and each new string is url.QueryEscape of its old one; " +
 			"hexEscape emits % followed by the two upper-case hex digits; each writer constructor passes the escaper whose reader constructor installs the inverse decoder (path/header <-> url.PathUnescape, query <-> url.QueryUnescape).",
-		Props: []string{"C01", "C03", "C02"},
+		Props: []string{"C01", "C03", "C02", "C16"},
 		Floor: map[string]int{"v2": 8, "root": 8},
 		Run:   runR011,
 	})
